@@ -239,19 +239,36 @@ def gen_proj(rng):
 SR_VARIANTS = ["mdp.d", "mdp.s", "pomdp.dd", "pomdp.ds", "pomdp.sd", "pomdp.ss"]
 
 
-def model_row(rng, n):
-    """a row isProbability accepts: sums to one, or one minus 2^-20; may contain entries of 2^-20 / 2^-21
-       (<= 1e-6: dropped by the sparse classes) so that the STORED mass is below one"""
+def model_row(rng, n, lossy=False):
+    """a row isProbability accepts: sums to one, or to one minus 2^-20; it may contain tiny entries
+       (<= 1e-6) which the sparse classes drop, so that the STORED mass is below one.  The dropped mass
+       stays within the 1e-6 tolerance (one entry of 2^-20 or 2^-21, or two of 2^-22: the sparse classes
+       re-validate the stored row) unless `lossy`: then the stored row misses one by 2^-19 or
+       2^-20 + 2^-21 and the sparse classes must refuse it (invalid_argument)."""
     p = unit_dyadic(rng, n)
-    r = rng.random()
     big = max(range(n), key=lambda i: p[i])
-    if r < 0.3:
-        p[big] -= F(1, 2 ** 20)                      # slack in the row itself
-    elif r < 0.6 and n > 1:
-        for i in rng.sample([i for i in range(n) if i != big], rng.randint(1, min(2, n - 1))):
-            if p[i] == 0:
-                t = F(1, 2 ** rng.choice([20, 21]))
-                p[i] += t; p[big] -= t               # tiny entries, row still sums to one
+    free = [i for i in range(n) if i != big and p[i] == 0]
+
+    def tiny(i, e):
+        t = F(1, 2 ** e)
+        p[i] += t; p[big] -= t
+
+    if lossy:
+        if len(free) >= 2 and rng.random() < 0.5:
+            i, j = rng.sample(free, 2); tiny(i, 20); tiny(j, 20)      # loses 2^-19
+        elif free:
+            tiny(rng.choice(free), 21); p[big] -= F(1, 2 ** 20)        # sum 1-2^-20, stored 1-2^-20-2^-21
+        else:
+            lossy = False
+    if not lossy:
+        r = rng.random()
+        if r < 0.3:
+            p[big] -= F(1, 2 ** 20)                                    # slack in the row itself
+        elif r < 0.65 and free:
+            if len(free) >= 2 and rng.random() < 0.4:
+                i, j = rng.sample(free, 2); tiny(i, 22); tiny(j, 22)  # two dropped entries, 2^-21 in total
+            else:
+                tiny(rng.choice(free), rng.choice([20, 21]))          # one dropped entry
     return p
 
 
@@ -260,9 +277,13 @@ def gen_sr(rng):
     pomdp = variant.startswith("pomdp")
     S, A = rng.randint(1, 5), rng.randint(1, 3)
     O = rng.choice([o for o in range(1, 6) if o != S]) if pomdp else 0
-    T = [model_row(rng, S) for a in range(A) for s in range(S)]
+    # a few tables contain one row whose stored form the sparse classes must refuse
+    lossyT = rng.random() < 0.06
+    lossyO = pomdp and rng.random() < 0.06
+    kT, kO = rng.randrange(A * S), rng.randrange(A * S)
+    T = [model_row(rng, S, lossyT and i == kT) for i in range(A * S)]
     R = [fq(F(rng.choice([-12, -5, -1, 1, 2, 7, 16]), 4)) for _ in range(S * A)]
-    Ob = [model_row(rng, O) for a in range(A) for s1 in range(S)] if pomdp else []
+    Ob = [model_row(rng, O, lossyO and i == kO) for i in range(A * S)] if pomdp else []
     s, a = rng.randrange(S), rng.randrange(A)
     edge = F(1) - F(1, 2 ** 20)
     pool = [0.0, TOP, TOP, float(edge), math.nextafter(float(edge), 0.0), math.nextafter(float(edge), 2.0),
